@@ -35,8 +35,8 @@ MANIFEST = {
                   'Thorough tier sweeps the whole database.  Exploration: held on the instants observed.',
     'level_note': 'Trusts tzif_ref (checked against stdlib zoneinfo in the same run) and CPython datetime.',
 }
-PLAN = {'quick': {'shards': 4, 'timeout': 600, 'budget': 60},
-        'thorough': {'shards': 16, 'timeout': 3000, 'budget': 900}}
+PLAN = {'quick': {'shards': 4, 'timeout': 1800, 'budget': 900},
+        'thorough': {'shards': 16, 'timeout': 7200, 'budget': 2400}}
 EPOCH = D.datetime(1970, 1, 1)
 OFFSETS = (-7200, -3600, -1800, -1, 0, 1, 59, 1799, 3599, 3600, 3601, 7199, 7200, 10800)
 
